@@ -1,9 +1,10 @@
 #!/venv/bin/python
-import json, glob, os
-for d in sorted(glob.glob('/verif/seeded/C*_m*')):
+import json, glob, os, sys
+pat = sys.argv[1] if len(sys.argv) > 1 else 'C*_*m*'
+for d in sorted(glob.glob('/verif/seeded/' + pat)):
     mp = os.path.join(d, 'meta.json')
     if not os.path.exists(mp): continue
     m = json.load(open(mp))
     det = m.get('detection', {})
     print(os.path.basename(d), 'confirmed' if m.get('confirmed') else 'NOT-CONFIRMED(%s,%s,%s)' % (m.get('demo_clean_rc'), m.get('demo_mutant_rc'), m.get('new_failing_tests')),
-          {c: (v.get('exit'), v.get('first', '')[11:80]) if isinstance(v, dict) else v for c, v in det.items()})
+          {c: (v.get('exit'), v.get('first', '')[11:90]) if isinstance(v, dict) else v for c, v in det.items()})
